@@ -98,6 +98,7 @@ func (x *fx) instr(in ssa.Instruction) {
 		x.binop(i)
 	case *ssa.UnOp:
 		x.unop(i)
+		x.noteGuardedLoad(i)
 	case *ssa.Phi:
 		// handled by runBlock
 	case *ssa.Extract:
@@ -152,8 +153,10 @@ func (x *fx) instr(in ssa.Instruction) {
 			x.vals[i] = fmt.Sprintf("(select %s %s)", x.val(i.X), idx)
 		}
 	case *ssa.Lookup:
+		x.guardedAccess(i.X, false, i.Pos(), "lookup")
 		x.lookup(i)
 	case *ssa.MapUpdate:
+		x.guardedAccess(i.Map, true, i.Pos(), "update")
 		m := x.val(i.Map)
 		x.safety("nilmap-write", x.describe(i.Map), fmt.Sprintf("(not (= %s 0))", m), i.Pos())
 		x.mapKeyHashable(i.Key, i.Pos())
@@ -177,6 +180,7 @@ func (x *fx) instr(in ssa.Instruction) {
 		}
 		x.mapStore(st, i.Map.Type(), m, x.val(i.Key), x.val(i.Value))
 	case *ssa.Range:
+		x.guardedAccess(i.X, false, i.Pos(), "range")
 		if _, ok := i.X.Type().Underlying().(*types.Map); ok {
 			d, _, _ := e.mapFams(i.X.Type())
 			m := x.val(i.X)
